@@ -713,8 +713,8 @@ def run(ctx):
                 "bit moduli), each also with the host key / value / signature of the reply altered; malformed and "
                 "out-of-order packets; _set_K_H sequences of length 0-6 with and without a preset id. end to end: "
                 "every kex with a host-key algorithm (thorough: all 10 x 7), 1-5 rekeys initiated by either side, and "
-                "single-field MITM edits (host key flipped / swapped, f or Q_S, signature, client value, gex p, gex g), "
-                "the same edits (signature, value, replayed first signature) on a RE-exchange with the same host key. "
+                "single-field MITM edits (host key flipped / swapped, f or Q_S, signature, client value, gex p, gex g, Q_S / Q_C "
+                "re-encoded as the same point in compressed form), the same edits (signature, value, replayed first signature) on a RE-exchange with the same host key. "
                 "distinct = distinct (engine, role, packets) / (kex, algorithm, edit); non-trivial = a complete "
                 "exchange or an altered one")
     ctx.trust("cryptography (RSA/ECDSA/ECDH/X25519), nacl (Ed25519), hashlib",
@@ -750,7 +750,9 @@ META = {
               "(first and re-exchanges, behind run()'s _expected_packet gate, any packet history); session_id = first H after any "
               "number of exchanges and is never changed by later traces; the hash input is injective in every field; "
               "an altered host key / f / signature makes the client raise before NEWKEYS. Tied to the real engines by "
-              "exact comparison of every transport call and every hashed byte string, every engine class, both roles."),
+              "exact comparison of every transport call and every hashed byte string, every engine class, both roles, "
+              "including a peer's point in its alternative valid encoding: the hash covers the octets AS RECEIVED (also "
+              "checked with real cryptography and compressed SEC1 points on all three curves)."),
     "note": ("Assumed as hypotheses (not proved, not axioms): the curve library's DH law (CurveLaws, proved for the toy "
              "curves), collision-freeness of the hash on the compared inputs, unforgeability of the host-key signature. "
              "gex: gex_full_honest covers the whole exchange from paramiko's own request (1024, 2048, 8192); "
